@@ -123,6 +123,7 @@ def _active(ctx, prefer, require):
 
 
 EXECUTOR_TIER = [False]
+DEFAULT_ROOT = [None]
 
 
 def model_par(stack, explicit):
@@ -207,6 +208,7 @@ def run_case(case):
         import types as _types, joblib._memmapping_reducer as _jmr
         _jmr.resource_tracker = _types.SimpleNamespace(register=lambda *a: None, unregister=lambda *a: None,
                                                        maybe_unlink=lambda *a: None, ensure_running=lambda *a: None)
+        DEFAULT_ROOT[0] = os.path.dirname(_jmr._get_temp_dir("x", None)[0])
         import joblib.externals.loky.backend.resource_tracker as _lrt        # (named semaphores of the executor's queues)
         _lrt.register = _lrt.unregister = _lrt.maybe_unlink = _lrt.ensure_running = lambda *a: None
     mism = []
@@ -225,7 +227,10 @@ def run_case(case):
             stats["executors_requested"] = stats.get("executors_requested", 0) + 1
             try:
                 with p:
-                    out.append(getattr(p._backend._workers._temp_folder_manager, "_temp_folder_root", "?"))
+                    # where the files of THIS object's calls would go (the folder registered for its context id)
+                    folder = p._backend._workers._temp_folder_manager._cached_temp_folders[p._id]
+                    root = os.path.dirname(folder)
+                    out.append(root if root in ("/tmp/a", "/tmp/b", "/tmp/c") else (None if root == DEFAULT_ROOT[0] else "?" + root))
             except Exception as e:  # noqa
                 out.append("EXC:%s:%s" % (type(e).__name__, str(e)[:80]))
         return out
